@@ -171,7 +171,8 @@ theorem length_sub_right (a x : List Char) : (a ++ x).length - x.length = a.leng
 
 theorem handleTag_var (cfg : Cfg) {d : Delims} (g : Good d) (lead : List Out) (ts : List Tok) (l r : Mark)
     (preTag t' more : List Char)
-    (hok : interiorOk d.ve 0 ts (r.src ++ (d.ve ++ (t' ++ more))) = true) :
+    (hok : interiorOk d.ve 0 ts (r.src ++ (d.ve ++ (t' ++ more))) = true)
+    (hclose : closeOk d.ve r (t' ++ more) = true) :
     handleTag cfg d lead .var (d.vs.length + l.ws.len) preTag
         ((Tag.mk (.var ts) l r).src d ++ (t' ++ more)) =
       .next (lead ++ [.var]) (((t').take (nextK cfg false r t')).reverse ++ (((Tag.mk (.var ts) l r).src d).reverse ++ preTag))
@@ -192,7 +193,7 @@ theorem handleTag_var (cfg : Cfg) {d : Delims} (g : Good d) (lead : List Out) (t
     rw [this]; simp; omega
   unfold handleTag
   simp only []
-  rw [hsrc, drop_start_mark, interior_end_found g.ve ts r _ hok]
+  rw [hsrc, drop_start_mark, interior_end_found g.ve ts r _ hok hclose]
   simp only []
   rw [hinner, ← hsrc, ← hlen]
   have := contAfter_src lead [.var] preTag ((Tag.mk (.var ts) l r).src d) (t' ++ more) 0 (decide (r.ws = Ws.remove)) hne
@@ -207,6 +208,7 @@ theorem skipBasicTag_notRaw (s be : List Char)
 theorem handleTag_block (cfg : Cfg) {d : Delims} (g : Good d) (lead : List Out) (ts : List Tok) (l r : Mark)
     (preTag t' more : List Char) (hm : NoWsHead more)
     (hok : interiorOk d.be 0 ts (r.src ++ (d.be ++ (t' ++ more))) = true)
+    (hclose : closeOk d.be r (t' ++ more) = true)
     (hraw : startsWith rawName ((srcs ts ++ (r.src ++ (d.be ++ (t' ++ more)))).dropWhile isAsciiWs) = false) :
     handleTag cfg d lead .block (d.bs.length + l.ws.len) preTag
         ((Tag.mk (.block ts) l r).src d ++ (t' ++ more)) =
@@ -227,21 +229,21 @@ theorem handleTag_block (cfg : Cfg) {d : Delims} (g : Good d) (lead : List Out) 
     rw [this]; simp; omega
   unfold handleTag
   simp only []
-  rw [hsrc, drop_start_mark, skipBasicTag_notRaw _ _ hraw, interior_end_found g.be ts r _ hok]
+  rw [hsrc, drop_start_mark, skipBasicTag_notRaw _ _ hraw, interior_end_found g.be ts r _ hok hclose]
   simp only []
   rw [hinner, ← hsrc, ← hlen, List.drop_left, tailWs_eq cfg r t' more hm]
   simp only []
   rw [contAfter_src lead [.blk] preTag _ (t' ++ more) _ _ hne]
   rw [List.take_append_of_le_length (nextK_le cfg true r t'), List.drop_append_of_le_length (nextK_le cfg true r t')]
 
-theorem wsOfChar_comment_end {e : List Char} (he : headOk e = true) (cs body : List Char) (l r : Mark)
+theorem wsOfChar_comment_end (e cs body : List Char) (l r : Mark)
     (y : List Char) (hb : bodyEndOk body r = true) :
-    wsOfChar ((cs ++ (l.src ++ (body ++ (r.src ++ (e ++ y))))).drop
-      (body.length + r.src.length - 1 + (cs.length + l.ws.len))).head? = r.ws := by
+    (if body.length + r.src.length = 0 then Ws.dflt else
+      wsOfChar ((cs ++ (l.src ++ (body ++ (r.src ++ (e ++ y))))).drop
+        (body.length + r.src.length - 1 + (cs.length + l.ws.len))).head?) = r.ws := by
   have h : (cs ++ (l.src ++ (body ++ (r.src ++ (e ++ y))))).drop (cs.length + l.ws.len) =
       body ++ (r.src ++ (e ++ y)) := drop_start_mark cs l _
-  rw [Nat.add_comm, ← List.drop_drop, h]
-  obtain ⟨h0, t0, rfl, _, _, h3, h4⟩ := headOk_cons he
+  rw [Nat.add_comm (body.length + r.src.length - 1), ← List.drop_drop, h]
   cases r with
   | minus =>
     have : body.length + Mark.minus.src.length - 1 = body.length := by simp [Mark.src]
@@ -255,7 +257,7 @@ theorem wsOfChar_comment_end {e : List Char} (he : headOk e = true) (cs body : L
     | nil =>
       have : body = [] := by simpa using hr
       subst this
-      simp [Mark.src, Mark.ws, wsOfChar, h3, h4]
+      simp [Mark.src, Mark.ws]
     | cons c r' =>
       rw [hr] at hb
       have hbody : body = r'.reverse ++ [c] := by
@@ -263,7 +265,9 @@ theorem wsOfChar_comment_end {e : List Char} (he : headOk e = true) (cs body : L
       have hc : c ≠ '-' ∧ c ≠ '+' := by simpa [isMarkChar] using hb
       have hn : body.length + Mark.none.src.length - 1 = r'.reverse.length := by
         rw [hbody]; simp [Mark.src]
-      rw [hn, hbody, List.append_assoc, List.drop_left]
+      have hpos : ¬ (body.length + Mark.none.src.length = 0) := by
+        rw [hbody]; simp
+      rw [if_neg hpos, hn, hbody, List.append_assoc, List.drop_left]
       simp [Mark.ws, wsOfChar, hc.1, hc.2]
 
 theorem handleTag_comment (cfg : Cfg) {d : Delims} (g : Good d) (lead : List Out) (body : List Char)
@@ -274,7 +278,7 @@ theorem handleTag_comment (cfg : Cfg) {d : Delims} (g : Good d) (lead : List Out
       .next (lead ++ []) (((t').take (nextK cfg true r t')).reverse ++ (((Tag.mk (.comment body) l r).src d).reverse ++ preTag))
         ((t').drop (nextK cfg true r t') ++ more) (nextTf r) := by
   obtain ⟨c, rr, hcs, _⟩ := startOk_cons g.cs
-  obtain ⟨c0, r0, hce0, _⟩ := headOk_cons g.ce
+  have hce0 : d.ce ≠ [] := g.ce
   have hne : (Tag.mk (.comment body) l r).src d ≠ [] := by simp [Tag.src, Tag.start, hcs]
   have hsrc : (Tag.mk (.comment body) l r).src d ++ (t' ++ more) =
       d.cs ++ (l.src ++ (body ++ (r.src ++ (d.ce ++ (t' ++ more))))) := by
@@ -283,13 +287,13 @@ theorem handleTag_comment (cfg : Cfg) {d : Delims} (g : Good d) (lead : List Out
       d.cs.length + l.ws.len + (body.length + r.src.length) + d.ce.length := by
     simp [Tag.src, Tag.start, Tag.after, Mark.ws_len]; omega
   have hfind : findSub d.ce (body ++ (r.src ++ (d.ce ++ (t' ++ more)))) = some (body.length + r.src.length) := by
-    have := findSub_body d.ce (by simp [hce0]) (body ++ r.src) (t' ++ more) hce
+    have := findSub_body d.ce hce0 (body ++ r.src) (t' ++ more) hce
     simpa [List.append_assoc] using this
   unfold handleTag
   simp only []
   rw [hsrc, drop_start_mark, hfind]
   simp only []
-  rw [wsOfChar_comment_end g.ce _ _ _ _ _ hb, ← hsrc, ← hlen, List.drop_left, tailWs_eq cfg r t' more hm]
+  rw [wsOfChar_comment_end d.ce _ _ _ _ _ hb, ← hsrc, ← hlen, List.drop_left, tailWs_eq cfg r t' more hm]
   simp only []
   rw [contAfter_src lead [] preTag _ (t' ++ more) _ _ hne]
   rw [List.take_append_of_le_length (nextK_le cfg true r t'), List.drop_append_of_le_length (nextK_le cfg true r t')]
@@ -298,11 +302,17 @@ theorem handleTag_comment (cfg : Cfg) {d : Delims} (g : Good d) (lead : List Out
 def rawOpen (d : Delims) (tight : Bool) (l ri : Mark) : List Char :=
   d.bs ++ (l.src ++ (rawBody tight ++ (ri.src ++ d.be)))
 
-theorem lastOk_rev {e : List Char} (h : lastOk e = true) : ∃ c r, e.reverse = c :: r ∧ isWs c = false := by
+theorem lastOk_rev {e : List Char} (h : lastOk e = true) :
+    ∃ u c r, e.reverse = u ++ c :: r ∧ (∀ x ∈ u, isHws x = true) ∧ isWs c = false := by
   unfold lastOk at h
-  cases hr : e.reverse with
+  have hsplit := List.takeWhile_append_dropWhile (p := isHws) (l := e.reverse)
+  cases hr : e.reverse.dropWhile isHws with
   | nil => simp [hr] at h
-  | cons c r => exact ⟨c, r, rfl, by simpa [hr] using h⟩
+  | cons c r =>
+    rw [hr] at hsplit
+    refine ⟨e.reverse.takeWhile isHws, c, r, hsplit.symm, ?_, by simpa [hr] using h⟩
+    intro x hx
+    exact mem_takeWhile_sat hx
 
 theorem rawData_eq (cfg : Cfg) (ri l2 : Mark) (preRaw c : List Char) (hc : CtxOk false preRaw) :
     rawData cfg ri.ws l2.ws preRaw c = cut (leftCut cfg true ri c) (rightCut cfg false true l2 c) c := by
@@ -314,7 +324,9 @@ theorem rawData_eq (cfg : Cfg) (ri l2 : Mark) (preRaw c : List Char) (hc : CtxOk
 
 theorem handleTag_raw (cfg : Cfg) {d : Delims} (g : Good d) (lead : List Out) (c : List Char)
     (ri l2 : Mark) (tight : Bool) (l r : Mark) (preTag t' more : List Char) (hm : NoWsHead more)
-    (hfree : rawFree d (Tag.mk (.raw c ri l2 tight) l r) (t' ++ more) = true) :
+    (hfree : rawFree d (Tag.mk (.raw c ri l2 tight) l r) (t' ++ more) = true)
+    (hc1 : closeOk d.be ri (c ++ ((Tag.mk (.raw c ri l2 tight) l r).rawClose d ++ (t' ++ more))) = true)
+    (hc2 : closeOk d.be r (t' ++ more) = true) :
     handleTag cfg d lead .block (d.bs.length + l.ws.len) preTag
         ((Tag.mk (.raw c ri l2 tight) l r).src d ++ (t' ++ more)) =
       .next (lead ++ [.data (cut (leftCut cfg true ri c) (rightCut cfg false true l2 c) c)])
@@ -338,11 +350,13 @@ theorem handleTag_raw (cfg : Cfg) {d : Delims} (g : Good d) (lead : List Out) (c
     simp [Tag.src, Tag.start, Tag.after, rawOpen]; omega
   have hfree' : noBsIn d c Z = true := by
     simpa [rawFree, Tag.rawClose, ← hZ, ← hX, List.append_assoc] using hfree
-  have hfind := findEndraw_content g c tight l2 r X (by rw [hZ]; exact hfree')
+  have hc1' : closeOk d.be ri (c ++ Z) = true := by
+    simpa [Tag.rawClose, ← hZ, ← hX, List.append_assoc] using hc1
+  have hfind := findEndraw_content g c tight l2 r X (by rw [← hX]; exact hc2) (by rw [hZ]; exact hfree')
   rw [hZ] at hfind
   unfold handleTag
   simp only []
-  rw [hsrc, drop_start_mark, skipBasicTag_raw g.be]
+  rw [hsrc, drop_start_mark, skipBasicTag_raw g.be tight ri (c ++ Z) hc1']
   simp only []
   rw [← hsrc, hsrc2, ← hopen, List.drop_left, List.take_left, hfind]
   simp only []
@@ -351,8 +365,8 @@ theorem handleTag_raw (cfg : Cfg) {d : Delims} (g : Good d) (lead : List Out) (c
   rw [contAfter_src lead _ preTag _ (t' ++ more) _ _ hne]
   rw [List.take_append_of_le_length (nextK_le cfg true r t'), List.drop_append_of_le_length (nextK_le cfg true r t')]
   rw [rawData_eq]
-  obtain ⟨ce, re, hre, hw⟩ := lastOk_rev g.lbe
-  refine Or.inr ⟨rfl, ce, re ++ ((d.bs ++ (l.src ++ (rawBody tight ++ ri.src))).reverse ++ preTag), ?_, hw⟩
+  obtain ⟨ue, ce, re, hre, hue, hw⟩ := lastOk_rev g.lbe
+  refine Or.inr ⟨rfl, ue, ce, re ++ ((d.bs ++ (l.src ++ (rawBody tight ++ ri.src))).reverse ++ preTag), ?_, hue, hw⟩
   simp [rawOpen, List.reverse_append, hre, List.append_assoc]
 
 /-! ### line statements and line comments -/
